@@ -22,31 +22,31 @@ contract('IOManager._read_bytes_from_device',
          real=real('_read_bytes_from_device'),
          params={'self': 'obj:IOManager', 'length': 'int', 'adb_info': 'obj:AdbInfo'},
          returns='bytes',
-         props=['C03', 'C11', 'C06', 'C12'],
+         props=['C03', 'C11', 'C06', 'C12', 'C01', 'C08', 'C09'],
          requires=['length >= 0', 'G.rpos >= 0 and G.rpos <= len(G.dev)',
                    ('C06', 'transport-owned', 'G.held_transport')],
          modifies=['G.rpos', 'G.now', 'G.cpu'],
-         ensures=[('C03', 'exact-slice', 'result == G.dev[old(G.rpos):old(G.rpos) + length]'),
-                  ('C03', 'exact-length', 'len(result) == length'),
-                  ('C03', 'cursor', 'G.rpos == old(G.rpos) + length and G.rpos <= len(G.dev)'),
+         ensures=[('C03,C01,C08,C09', 'exact-slice', 'result == G.dev[old(G.rpos):old(G.rpos) + length]'),
+                  ('C03,C01,C08,C09', 'exact-length', 'len(result) == length'),
+                  ('C03,C01,C08,C09', 'cursor', 'G.rpos == old(G.rpos) + length and G.rpos <= len(G.dev)'),
                   ('C11', 'duration', 'implies(%s, G.now - old(G.now) <= %s + %s + %s)' % (TNN, R, T, CPU)),
                   ('C11', 'clock-monotone', 'G.now >= old(G.now) and G.cpu >= old(G.cpu)'),
                   ('C06,C12', 'locks-unchanged', 'G.held_transport == old(G.held_transport)')],
          raises={'AdbTimeoutError': [('C11', 'timeout-only-after-deadline', 'G.now - old(G.now) > adb_info.read_timeout_s'),
                                      ('C11', 'duration', 'implies(%s, G.now - old(G.now) <= %s + %s + %s)' % (TNN, R, T, CPU)),
-                                     ('C03', 'partial-progress', 'G.rpos >= old(G.rpos) and G.rpos < old(G.rpos) + length and G.rpos <= len(G.dev)'),
+                                     ('C03,C01,C08,C09', 'partial-progress', 'G.rpos >= old(G.rpos) and G.rpos < old(G.rpos) + length and G.rpos <= len(G.dev)'),
                                      'G.now >= old(G.now) and G.cpu >= old(G.cpu)'],
                  '*': [('C11', 'duration', 'implies(%s, G.now - old(G.now) <= %s + %s + %s)' % (TNN, R, T, CPU)),
                        'G.rpos >= old(G.rpos) and G.rpos <= len(G.dev)',
                        'G.now >= old(G.now) and G.cpu >= old(G.cpu)']},
-         call_asserts={'Transport.bulk_read': [('C03', 'never-over-request', '_arg_numbytes == _0length - len(data) and _arg_numbytes > 0'),
+         call_asserts={'Transport.bulk_read': [('C03,C01,C08,C09', 'never-over-request', '_arg_numbytes == _0length - len(data) and _arg_numbytes > 0'),
                                                ('C11', 'timeout-passed', 'same(_arg_transport_timeout_s, adb_info.transport_timeout_s)')]},
          loops={0: dict(invariant=[
-             ('C03,C11', 'data == G.dev[old(G.rpos):G.rpos]'),
-             ('C03,C11', 'G.rpos == old(G.rpos) + len(data)'),
-             ('C03,C11', 'length + len(data) == _0length and length >= 0'),
-             ('C03,C11', 'G.rpos <= len(G.dev) and old(G.rpos) >= 0'),
-             ('C03,C11', 'isbytearray(data)'),
+             ('C03,C11,C01,C08,C09', 'data == G.dev[old(G.rpos):G.rpos]'),
+             ('C03,C11,C01,C08,C09', 'G.rpos == old(G.rpos) + len(data)'),
+             ('C03,C11,C01,C08,C09', 'length + len(data) == _0length and length >= 0'),
+             ('C03,C11,C01,C08,C09', 'G.rpos <= len(G.dev) and old(G.rpos) >= 0'),
+             ('C03,C11,C01,C08,C09', 'isbytearray(data)'),
              ('C11', 'G.now - start <= %s' % R),
              ('C11', 'G.now >= start and start >= old(G.now) and G.cpu >= old(G.cpu) and start - old(G.now) <= G.cpu - old(G.cpu)'),
          ])},
@@ -56,25 +56,25 @@ contract('IOManager._read_packet_from_device',
          real=real('_read_packet_from_device'),
          params={'self': 'obj:IOManager', 'adb_info': 'obj:AdbInfo'},
          returns='tuple[bytes,int,int,bytes]',
-         props=['C03', 'C11', 'C06', 'C12'],
+         props=['C03', 'C11', 'C06', 'C12', 'C01', 'C08', 'C09'],
          requires=['G.rpos >= 0 and G.rpos <= len(G.dev)', ('C06', 'transport-owned', 'G.held_transport')],
          modifies=['G.rpos', 'G.now', 'G.cpu'],
-         ensures=[('C03', 'cursor-within-stream', 'G.rpos >= old(G.rpos) + 24 and G.rpos <= len(G.dev)'),
-                  ('C03', 'known-command', 'unle32(G.dev[old(G.rpos):old(G.rpos) + 4]) in WIRE_TO_ID'),
-                  ('C03', 'command', 'result[0] == WIRE_TO_ID[unle32(G.dev[old(G.rpos):old(G.rpos) + 4])]'),
-                  ('C03', 'args', 'result[1] == unle32(G.dev[old(G.rpos) + 4:old(G.rpos) + 8]) and result[2] == unle32(G.dev[old(G.rpos) + 8:old(G.rpos) + 12])'),
-                  ('C03', 'payload', 'result[3] == G.dev[old(G.rpos) + 24:old(G.rpos) + 24 + unle32(G.dev[old(G.rpos) + 12:old(G.rpos) + 16])]'),
-                  ('C03', 'payload-length', 'len(result[3]) == unle32(G.dev[old(G.rpos) + 12:old(G.rpos) + 16])'),
-                  ('C03', 'checksum-verified',
+         ensures=[('C03,C01,C08,C09', 'cursor-within-stream', 'G.rpos >= old(G.rpos) + 24 and G.rpos <= len(G.dev)'),
+                  ('C03,C01,C08,C09', 'known-command', 'unle32(G.dev[old(G.rpos):old(G.rpos) + 4]) in WIRE_TO_ID'),
+                  ('C03,C01,C08,C09', 'command', 'result[0] == WIRE_TO_ID[unle32(G.dev[old(G.rpos):old(G.rpos) + 4])]'),
+                  ('C03,C01,C08,C09', 'args', 'result[1] == unle32(G.dev[old(G.rpos) + 4:old(G.rpos) + 8]) and result[2] == unle32(G.dev[old(G.rpos) + 8:old(G.rpos) + 12])'),
+                  ('C03,C01,C08,C09', 'payload', 'result[3] == G.dev[old(G.rpos) + 24:old(G.rpos) + 24 + unle32(G.dev[old(G.rpos) + 12:old(G.rpos) + 16])]'),
+                  ('C03,C01,C08,C09', 'payload-length', 'len(result[3]) == unle32(G.dev[old(G.rpos) + 12:old(G.rpos) + 16])'),
+                  ('C03,C01,C08,C09', 'checksum-verified',
                    'len(result[3]) == 0 or bsum(result[3]) % 2**32 == unle32(G.dev[old(G.rpos) + 16:old(G.rpos) + 20])'),
-                  ('C03', 'cursor', 'G.rpos == old(G.rpos) + 24 + len(result[3]) and G.rpos <= len(G.dev)'),
+                  ('C03,C01,C08,C09', 'cursor', 'G.rpos == old(G.rpos) + 24 + len(result[3]) and G.rpos <= len(G.dev)'),
                   'result[1] >= 0 and result[1] < 2**32 and result[2] >= 0 and result[2] < 2**32 and result[0] in IDS',
                   ('C11', 'duration', 'implies(%s, G.now - old(G.now) <= 2 * (%s + %s) + %s)' % (TNN, R, T, CPU)),
                   ('C11', 'clock-monotone', 'G.now >= old(G.now) and G.cpu >= old(G.cpu)')],
-         raises={'InvalidCommandError': [('C03', 'unknown-command-only', 'unle32(G.dev[old(G.rpos):old(G.rpos) + 4]) not in WIRE_TO_ID'),
+         raises={'InvalidCommandError': [('C03,C01,C08,C09', 'unknown-command-only', 'unle32(G.dev[old(G.rpos):old(G.rpos) + 4]) not in WIRE_TO_ID'),
                                          'G.now >= old(G.now) and G.cpu >= old(G.cpu)', 'G.rpos >= old(G.rpos) and G.rpos <= len(G.dev)',
                                          ('C11', 'duration', 'implies(%s, G.now - old(G.now) <= 2 * (%s + %s) + %s)' % (TNN, R, T, CPU))],
-                 'InvalidChecksumError': [('C03', 'mismatch-only',
+                 'InvalidChecksumError': [('C03,C01,C08,C09', 'mismatch-only',
                                            'unle32(G.dev[old(G.rpos) + 12:old(G.rpos) + 16]) > 0 and '
                                            'bsum(G.dev[old(G.rpos) + 24:old(G.rpos) + 24 + unle32(G.dev[old(G.rpos) + 12:old(G.rpos) + 16])]) % 2**32'
                                            ' != unle32(G.dev[old(G.rpos) + 16:old(G.rpos) + 20])'),
